@@ -736,6 +736,34 @@ theorem stored_quorum_passes_checkOracleSignatures_partial (V : SolVerifySig) (h
   subst this
   exact hver hs hn power
 
+/-! ## 10. (round 3) `ValidateConfirmSign` as the source spells it: the regenerated statement list, interpreted -/
+
+/-- the statement list of `ValidateConfirmSign` (regenerated from the AST: the hex decoding, the two registry reads with
+their `!found` exits, the external-address and bridger comparisons, the branch on the chain and the validator call in each
+branch, the return), interpreted statement by statement, IS the specified validation — for every registry, message and
+digest and whatever the two validators do; on a tron chain the tron validator decides, on every other chain the eth one -/
+theorem validate_program_is_specified (tron : Bool) (recoverBy : String → List Nat → List Nat → Option String) (st : HState)
+    (m : ConfirmMsg) (digest : List Nat) :
+    vRun tron recoverBy st m digest validateProg {} = validateSpec (recoverBy (validatorOf tron)) st m digest :=
+  vRun_validateProg tron recoverBy st m digest
+
+/-- the handler the driver runs — key plan AND validation statement list both regenerated — is `confirmStep`, so all the
+results of sections 4–6 are about it -/
+theorem fully_generated_handler_is_specified (tron : Bool) (recoverBy : String → List Nat → List Nat → Option String)
+    (st : HState) (m : ConfirmMsg) :
+    confirmStepGV tron recoverBy st m = confirmStep (recoverBy (validatorOf tron)) st m := by
+  unfold confirmStepGV
+  rw [confirmStepPV_eq_confirmStepP]
+  exact generated_handler_is_specified _ st m
+
+/-- each validator calls its own decoder (regenerated), whose rule is the one of its chain style: the tron validator
+recovers under the TRON signed-message prefix, the eth validator under the Ethereum one -/
+theorem validators_use_their_decoders :
+    validateDecoders = [("types.ValidateEthereumSignature", "EthAddressFromSignature"),
+      ("trontypes.ValidateTronSignature", "TronAddressFromSignature")] ∧
+    ruleOfValidator (validatorOf false) = sigRuleFor false ∧ ruleOfValidator (validatorOf true) = sigRuleFor true ∧
+    validateParams = ["ctx", "bridgerAddr", "signatureAddr", "signature", "checkpoint"] := by decide
+
 /-! ## non-vacuity -/
 
 /-- a well-formed, int64-safe oracle set with members exists -/
@@ -834,5 +862,24 @@ example : (handlerPreimage true "oracleSet" (OracleSet.toObj ⟨7, [⟨100, 5⟩
     (handlerPreimage false "bridgeCall" (BridgeCall.toObj ⟨1, 2, [⟨3, 4⟩], 5, [6], [], 7, 8, 9⟩) 9).isSome := by
   rw [handlerPreimage_eq _ _ (by simp), handlerPreimage_eq _ _ (by simp)]
   simp [tronPre_oracleSet, goPre_bridgeCall]
+
+private def errOf' {α : Type} (r : Except Err α) : Option Err := match r with | .error e => some e | .ok _ => none
+
+/-- the statements matter one by one: the regenerated list rejects a confirm from another bridger with `mismatch`; the same
+list WITHOUT its bridger comparison accepts it; and with the two validator calls swapped between the branches an eth-style
+chain would accept what only the tron validator accepts -/
+example :
+    let st : HState := run exRecover {} [.setOracle 1 ⟨"bridgerY", "0xExt"⟩, .setIndex "0xExt" 1]
+    let m : ConfirmMsg := ⟨.oracleSet 7, "bridgerX", "0xExt", some [9]⟩
+    let okBy : String → List Nat → List Nat → Option String := fun _ _ _ => some "0xExt"
+    let tronOnly : String → List Nat → List Nat → Option String :=
+      fun fn _ _ => if fn == "trontypes.ValidateTronSignature" then some "0xExt" else none
+    let swap : VStmt → VStmt := fun s => { s with conds := s.conds.map fun c =>
+      if c == "+" ++ tronCond then "-" ++ tronCond else if c == "-" ++ tronCond then "+" ++ tronCond else c }
+    errOf' (vRun false okBy st m [] validateProg {}) = some .mismatch ∧
+    errOf' (vRun false okBy st m [] (validateProg.filter (fun s => s.fn != "oracle.BridgerAddress != bridgerAddr")) {}) = none ∧
+    errOf' (vRun false tronOnly st { m with bridger := "bridgerY" } [] validateProg {}) = some .badSig ∧
+    errOf' (vRun false tronOnly st { m with bridger := "bridgerY" } [] (validateProg.map swap) {}) = none := by
+  decide
 
 end FxVerif.Props.C12
